@@ -426,6 +426,7 @@ class FakeFace:
     def __init__(self, world, loop):
         self.world, self.loop = world, loop
         self.app = None
+        self.mem = None         # CallerMemory: the form in which delivered Data reach the application
         self.sent = []
         self.flag_errors = []
 
@@ -445,17 +446,155 @@ class FakeFace:
         if r is None:
             return
         if r[0] == 'data':
-            self.loop.create_task(self.app._receive(TypeNumber.DATA, self.world.pkts[r[1]]))
+            wire = self.world.pkts[r[1]]
+            self.loop.create_task(self.app._receive(TypeNumber.DATA, self.mem.deliver(wire) if self.mem else wire))
         elif r[0] == 'nack':
             self.loop.call_soon(self.app._on_nack, name, 150)
         elif r[0] == 'fail':
             raise NetworkError('injected')
 
 
-def run_impl(env, world, ops):
-    """ops: ('storage',) | ('lvs', schema_id, anchor, sarg) | ('cascade', anchor, sarg) | ('val', inst, pid)
-    anchor = pid | ('raw', bytes);  sarg = None | index of a 'storage' op.  Returns observations."""
+# ---- the caller's memory -----------------------------------------------------------------------------
+# Every wire the library is GIVEN (trust anchor, packet to validate, certificate Data delivered by the face) sits
+# in a buffer the CALLER owns, and BinaryStr admits bytes, bytearray and memoryview.  The caller may load the next
+# wire into the same buffer or overwrite it once the call it was handed to has returned: what a validator judges
+# against is what it was given at that call, not what the buffer holds later.
+FORMS_MUTABLE = ['bytearray', 'mv-bytearray', 'mv-window']
+FORMS_IMMUTABLE = ['bytes', 'mv-bytes']
+FORMS = FORMS_MUTABLE + FORMS_IMMUTABLE
+WINDOW_CAP, WINDOW_OFF = 1536, 24
+# A Data delivered by the face is handed over for good: the library's own faces give a fresh bytes object per
+# packet and express_interest returns views into it (so does every application that keeps `content`).  The family
+# still delivers it in every FORM; set True to let the face overwrite the delivered wires once the top-level
+# validation has answered (docs/C14.md, "receive buffer reused": MemoryKeyStorage keeps a view of the content).
+RECEIVE_BUFFER_REUSED = False
+
+
+class CallerMemory:
+    """buffers of the application: id -> the object handed to the library, the bytearray behind it (None for the
+    immutable forms) and what it holds: a pid of the world, or None once it was scribbled over"""
+
+    def __init__(self, world, forms):
+        self.world = world
+        self.forms = dict(forms or {})
+        self.bufs = {}          # id -> [obj, backing bytearray | None, lo, hi, holds]
+        self.retired = []       # backing stores the caller replaced (still its own memory; overwritten on retirement)
+        self.delivered = []     # backing stores of the Data the face delivered
+        self.log = []
+
+    def form(self, role):
+        return self.forms.get(role, 'bytes')
+
+    def make(self, form, wire):
+        """a fresh buffer holding [wire]: (object for the library, backing bytearray or None, lo, hi)"""
+        wire = bytes(wire)
+        n = len(wire)
+        if form == 'bytes':
+            return wire, None, 0, n
+        if form == 'mv-bytes':
+            return memoryview(wire), None, 0, n
+        if form == 'bytearray':
+            b = bytearray(wire)
+            return b, b, 0, n
+        if form == 'mv-bytearray':
+            b = bytearray(wire)
+            return memoryview(b), b, 0, n
+        if form == 'mv-window':
+            b = bytearray(b'\xee' * max(WINDOW_CAP, n + 2 * WINDOW_OFF))
+            b[WINDOW_OFF:WINDOW_OFF + n] = wire
+            return memoryview(b)[WINDOW_OFF:WINDOW_OFF + n], b, WINDOW_OFF, WINDOW_OFF + n
+        raise AssertionError(form)
+
+    def load(self, bid, role, pid):
+        """buf[:] = wire -- in place whenever the buffer can hold it, else the caller takes a new one"""
+        wire = self.world.pkts[pid]
+        n = len(wire)
+        cur = self.bufs.get(bid)
+        if cur is not None and cur[1] is not None:
+            obj, back, lo, hi, _ = cur
+            if hi - lo == n:
+                back[lo:hi] = wire                         # same size: never a resize, always allowed
+                self.bufs[bid] = [obj, back, lo, hi, pid]
+                self.log.append(('in-place', bid, pid))
+                return
+            if self.form(role) == 'mv-window' and lo + n + WINDOW_OFF <= len(back):
+                back[lo:lo + n] = wire                     # the same store, the window re-cut
+                self.bufs[bid] = [memoryview(back)[lo:lo + n], back, lo, lo + n, pid]
+                self.log.append(('in-place', bid, pid))
+                return
+            back[:] = bytes(len(back))                     # does not fit: wiped and put aside, a new one allocated
+            self.retired.append(back)
+        obj, back, lo, hi = self.make(self.form(role), wire)
+        self.bufs[bid] = [obj, back, lo, hi, pid]
+        self.log.append(('fresh', bid, pid))
+
+    def scribble(self, bid, how):
+        cur = self.bufs.get(bid)
+        if cur is None or cur[1] is None:
+            return False                                   # immutable (or nothing there): nothing the caller can do
+        self.overwrite(cur[1], how)
+        cur[4] = None
+        return True
+
+    @staticmethod
+    def overwrite(back, how):
+        if how == 'zero':
+            back[:] = bytes(len(back))
+        elif how == 'invert':
+            back[:] = bytes(x ^ 0xff for x in back)
+        elif how == 'shift':
+            back[:] = bytes(back[1:]) + b'\x00'            # every offset now points one byte further
+        else:
+            raise AssertionError(how)
+
+    def given(self, bid):
+        cur = self.bufs[bid]
+        assert cur[4] is not None, 'a scribbled buffer is never handed to the library'
+        return cur[0], cur[4]
+
+    def deliver(self, wire):
+        obj, back, _, _ = self.make(self.form('cert'), wire)
+        if back is not None:
+            self.delivered.append(back)
+        return obj
+
+    def recycle_delivered(self, how='zero'):
+        for back in self.delivered:
+            self.overwrite(back, how)
+        self.delivered = []
+
+
+def value_ops(world, ops):
+    """The history as the library is GIVEN it: every hand-over of a buffer replaced by the wire the buffer holds at
+    that moment, the caller's own memory operations dropped.  This is what the model, the specification and the
+    oracle see -- by the property the verdicts may depend on nothing else."""
+    holds, out = {}, []
+    for op in ops:
+        if op[0] == 'load':
+            holds[op[1]] = op[2]
+        elif op[0] == 'scribble':
+            holds[op[1]] = None
+        elif op[0] in ('lvs', 'cascade') and isinstance(op[-2], tuple) and op[-2][0] == 'buf':
+            pid = holds.get(op[-2][1])
+            assert pid is not None, 'generator: constructor from an empty / scribbled buffer'
+            out.append(op[:-2] + (pid, op[-1]))
+        elif op[0] == 'val' and isinstance(op[2], tuple):
+            pid = holds.get(op[2][1])
+            assert pid is not None, 'generator: validation of an empty / scribbled buffer'
+            out.append(('val', op[1], pid))
+        else:
+            out.append(op)
+    return out
+
+
+def run_impl(env, world, ops, forms=None):
+    """ops: ('storage',) | ('lvs', schema_id, anchor, sarg) | ('cascade', anchor, sarg) | ('val', inst, packet)
+    | ('load', buffer, pid) | ('scribble', buffer, how)
+    anchor = pid | ('raw', bytes) | ('buf', buffer);  packet = pid | ('buf', buffer);  sarg = None | index of a
+    'storage' op;  forms = {'anchor' | 'packet' | 'cert': one of FORMS}.  Returns observations (('mem', ..) for the
+    caller's own memory operations)."""
     from ndn.app import NDNApp
+    from ndn.encoding import parse_data
     from ndn.app_support.light_versec import lvs_validator
     from ndn.security.validator.cascade_validator import CascadeChecker, MemoryKeyStorage
     loop = vtloop.new_loop()
@@ -463,15 +602,27 @@ def run_impl(env, world, ops):
     app = NDNApp(face=face, keychain=object())
     face.app = app
     storages, insts, obs = [], [], []
+    mem = CallerMemory(world, forms)
+    face.mem = mem if forms else None
 
     async def go():
         for op in ops:
             if op[0] == 'storage':
                 storages.append(MemoryKeyStorage())
                 obs.append(('storage',))
+            elif op[0] == 'load':
+                mem.load(op[1], 'anchor' if str(op[1]).startswith('A') else 'packet', op[2])
+                obs.append(('mem', 'load', mem.log[-1][0]))
+            elif op[0] == 'scribble':
+                obs.append(('mem', 'scribbled' if mem.scribble(op[1], op[2]) else 'immutable'))
             elif op[0] in ('lvs', 'cascade'):
                 anchor, sarg = op[-2], op[-1]
-                wire = anchor[1] if isinstance(anchor, tuple) else world.pkts[anchor]
+                if isinstance(anchor, tuple):
+                    wire = mem.given(anchor[1])[0] if anchor[0] == 'buf' else anchor[1]
+                elif forms:
+                    wire = mem.make(mem.form('anchor'), world.pkts[anchor])[0]
+                else:
+                    wire = world.pkts[anchor]
                 extra = [] if sarg is None else [storages[sarg]]
                 try:
                     if op[0] == 'lvs':
@@ -486,12 +637,19 @@ def run_impl(env, world, ops):
                 if op[1] >= len(insts):
                     obs.append(('bad',))
                     continue
-                p = world.parse(op[2])
                 face.begin()
                 try:
+                    if isinstance(op[2], tuple) or forms:
+                        # what an application does with a wire in its own buffer: parse it there, give the views
+                        given = (mem.given(op[2][1])[0] if isinstance(op[2], tuple)
+                                 else mem.make(mem.form('packet'), world.pkts[op[2]])[0])
+                        pname, _, _, pptrs = parse_data(given)
+                    else:
+                        p = world.parse(op[2])
+                        pname, pptrs = p['fname'], p['ptrs']
                     # watchdog on the virtual clock: a validator that waits for something nobody will ever provide
                     # (no Interest outstanding, no timer) must end the history, not hang the harness
-                    r = await asyncio.wait_for(insts[op[1]](p['fname'], p['ptrs']), WATCHDOG)
+                    r = await asyncio.wait_for(insts[op[1]](pname, pptrs), WATCHDOG)
                     obs.append(('val', 'ok', 1 if r else 0, list(face.sent)))
                 except TimeoutError:
                     obs.append(('val', 'hang', None, list(face.sent)))
@@ -499,6 +657,8 @@ def run_impl(env, world, ops):
                     obs.append(('val', 'fuel', None, list(face.sent)))
                 except (Exception, asyncio.CancelledError) as e:   # noqa  (awaiting a cancelled future raises CancelledError)
                     obs.append(('val', 'err', exc_code(e), list(face.sent), type(e).__name__))
+                if RECEIVE_BUFFER_REUSED:
+                    mem.recycle_delivered()
     try:
         loop.run_until_complete(go())
         loop.settle()
@@ -575,14 +735,25 @@ def same_obs(a, b):
 
 
 # ------------------------------------------------------------------------------------------------
-def check_history(ctx, env, world, ops, tag, legacy=False):
-    """run implementation + model + specification on one history; report"""
+def check_history(ctx, env, world, ops, tag, legacy=False, forms=None):
+    """run implementation + model + specification on one history; report.  With buffers (ops load / scribble,
+    hand-overs ('buf', id)) the implementation runs the history as written, the model and the oracle run the
+    history of the wires GIVEN at each call (value_ops)."""
+    full_ops = [tuple(o) for o in ops]
+    ops = value_ops(world, full_ops)
     schema_ids = sorted({op[1] for op in ops if op[0] == 'lvs'})
     anchors = sorted({op[-2] for op in ops if op[0] in ('lvs', 'cascade') and not isinstance(op[-2], tuple)})
     W, S = world.tables(anchors, schema_ids)
-    impl, flag_errors = run_impl(env, world, ops)
-    case = {'tag': tag, 'ops': [list(o) for o in ops], 'pkts': world.pkts,
+    impl_all, flag_errors = run_impl(env, world, full_ops, forms)
+    impl = [o for o in impl_all if o[0] != 'mem']
+    for o in impl_all:
+        if o[0] == 'mem':
+            ctx.stat('caller-memory:' + ':'.join(o[1:]))
+    case = {'tag': tag, 'ops': [list(o) for o in full_ops], 'pkts': world.pkts,
             'store': {k.hex(): list(v) for k, v in world.store.items()}}
+    if forms:
+        case['forms'] = dict(forms)
+        case['given'] = [list(o) for o in ops]
     m = ctx.call([1, 1 if legacy else 0, FUEL, W, S, model_ops(world, ops, schema_ids)])
     if is_err(m):
         ctx.disagree('history', 'model rejected the request', case, m, impl)
@@ -1601,8 +1772,157 @@ def gen_concurrent(ctx, env):
                 ConcScenario(ctx, env, w, [ctor], [(0, leaf), (0, leaf)], tag).explore(rng, ctx.n(1, 6), ctx.n(1, 12))
 
 
+# ------------------------------------------------------------------------------------------------
+# The caller's buffers: what is handed over is a bytes / bytearray / memoryview (whole, or a window of a larger
+# store), and the caller goes on using its memory afterwards.
+BUF_REWRITES = ['zero', 'invert', 'shift', 'other-anchor']
+BUF_KINDS = [('lvs', 0), ('cascade', None), ('lvs', 1)]
+
+
+def buffer_world(env, rng):
+    """two hierarchies with the same names below the root, the same key types level by level (so the two anchors
+    have the same layout and usually the same length) and different keys; the certificates of the first are
+    retrievable.  Packets: the leaf (chain of [depth] certificates to anchor 1), a notice signed by anchor 1 itself,
+    a notice signed by anchor 2, the certificate next to the leaf as a packet."""
+    kts = [rng.choice(['ec', 'rsa', 'ed', 'ed', 'ec']) for _ in range(4)]
+    h1 = Hier(env, rng, ktypes=kts, rid='r')
+    for _ in range(20):
+        h2 = Hier(env, rng, ktypes=kts, rid='q')
+        if h2.key['root'][2] != h1.key['root'][2]:
+            break
+    depth = rng.choice([1, 2, 2, 3])
+    w, a1, chain = base_world(env, h1, depth)
+    a2 = w.add(h2.build_cert('root'))
+    for _ in range(6):      # ECDSA signatures are 70..72 bytes: try for anchors of ONE length (whole-buffer reload)
+        if len(w.pkts[a2]) == len(w.pkts[a1]):
+            break
+        w.pkts.pop()
+        a2 = w.add(h2.build_cert('root'))
+    pk = {'leaf': chain[0],
+          'by-anchor-1': w.add(env.data('/lvs/notice/n1', b'first', env.signer(h1.key['root'], h1.names['root']))),
+          'by-anchor-2': w.add(env.data('/lvs/notice/n2', b'second', env.signer(h2.key['root'], h2.names['root']))),
+          'cert': chain[1]}
+    return w, a1, a2, pk, depth, kts
+
+
+def buffer_histories(rng, a1, a2, pk, thorough):
+    """(shape, rewrite, ops): the caller rewrites its buffers at every kind of later point of the history"""
+    out = []
+    L, N1, N2, C = pk['leaf'], pk['by-anchor-1'], pk['by-anchor-2'], pk['cert']
+
+    def new(kind, buf, sarg=None):
+        return ('lvs', kind[1], ('buf', buf), sarg) if kind[0] == 'lvs' else ('cascade', ('buf', buf), sarg)
+
+    def rewrite(buf, how):
+        return ('load', buf, a2) if how == 'other-anchor' else ('scribble', buf, how)
+    for how in BUF_REWRITES:
+        kind = rng.choice(BUF_KINDS)
+        out.append(('after-construction', how,
+                    [('load', 'A0', a1), new(kind, 'A0'), rewrite('A0', how),
+                     ('val', 0, L), ('val', 0, N1), ('val', 0, N2), ('val', 0, L)]))
+        kind = rng.choice(BUF_KINDS)
+        out.append(('between-validations', how,
+                    [('load', 'A0', a1), new(kind, 'A0'), ('val', 0, L), ('val', 0, N1), ('val', 0, N2),
+                     rewrite('A0', how), ('val', 0, L), ('val', 0, N1), ('val', 0, N2), ('val', 0, C)]))
+    for k2 in (BUF_KINDS if thorough else [rng.choice(BUF_KINDS)]):
+        kind = rng.choice(BUF_KINDS)
+        # the application loads the anchor of its SECOND validator into the buffer the first one was built from
+        out.append(('second-instance-same-buffer', 'other-anchor',
+                    [('load', 'A0', a1), new(kind, 'A0'), ('val', 0, N1), ('load', 'A0', a2), new(k2, 'A0'),
+                     ('val', 0, N1), ('val', 0, N2), ('val', 0, L), ('val', 1, N1), ('val', 1, N2), ('val', 1, L)]))
+        out.append(('second-instance-then-back', 'other-anchor',
+                    [('load', 'A0', a1), new(kind, 'A0'), ('load', 'A0', a2), new(k2, 'A0'), ('load', 'A0', a1),
+                     ('val', 1, N2), ('val', 1, N1), ('val', 0, N1), ('val', 0, N2), ('scribble', 'A0', 'zero'),
+                     ('val', 1, N2), ('val', 0, N1), ('val', 0, L), ('val', 1, L)]))
+        out.append(('two-buffers', 'other-anchor',
+                    [('load', 'A0', a1), ('load', 'A1', a2), new(kind, 'A0'), new(k2, 'A1'), ('load', 'A0', a2),
+                     ('load', 'A1', a1), ('val', 0, N1), ('val', 1, N1), ('val', 0, N2), ('val', 1, N2), ('val', 0, L)]))
+    kind = rng.choice(BUF_KINDS)
+    out.append(('packet-buffer-reused', 'reload',
+                [('load', 'A0', a1), new(kind, 'A0'), ('load', 'P0', L), ('val', 0, ('buf', 'P0')), ('load', 'P0', N2),
+                 ('val', 0, ('buf', 'P0')), ('load', 'P0', N1), ('val', 0, ('buf', 'P0')), ('scribble', 'P0', 'invert'),
+                 ('load', 'P0', L), ('val', 0, ('buf', 'P0')), ('load', 'P0', C), ('val', 0, ('buf', 'P0')),
+                 ('scribble', 'P0', 'zero'), ('val', 0, L), ('val', 0, N2)]))
+    return out
+
+
+def random_buffer_history(rng, a1, a2, pk, n_steps):
+    """a random walk of the application over its memory: load / overwrite an anchor or packet buffer, build a
+    validator from an anchor buffer, validate the packet in a packet buffer -- only loaded buffers are handed over"""
+    own = rng.random() < 0.3
+    ops = [('storage',)] * 3 if own else []
+    holds, ninst = {}, 0
+    pks = list(pk.values())
+
+    def new(buf):
+        nonlocal ninst
+        kind = rng.choice(BUF_KINDS)
+        sarg = ninst if own else None
+        ninst += 1
+        return ('lvs', kind[1], ('buf', buf), sarg) if kind[0] == 'lvs' else ('cascade', ('buf', buf), sarg)
+    ops += [('load', 'A0', a1)]
+    holds['A0'] = a1
+    ops.append(new('A0'))
+    for _ in range(n_steps):
+        x = rng.random()
+        ab, pb = rng.choice(['A0', 'A0', 'A1']), rng.choice(['P0', 'P1'])
+        if x < 0.18:
+            holds[ab] = rng.choice([a1, a2, a2])
+            ops.append(('load', ab, holds[ab]))
+        elif x < 0.30:
+            holds[ab] = None
+            ops.append(('scribble', ab, rng.choice(['zero', 'invert', 'shift'])))
+        elif x < 0.42 and ninst < 3 and holds.get(ab) is not None:
+            ops.append(new(ab))
+        elif x < 0.60:
+            holds[pb] = rng.choice(pks)
+            ops.append(('load', pb, holds[pb]))
+        elif x < 0.66:
+            holds[pb] = None
+            ops.append(('scribble', pb, rng.choice(['zero', 'invert'])))
+        elif x < 0.85 and holds.get(pb) is not None:
+            ops.append(('val', rng.randrange(ninst), ('buf', pb)))
+        else:
+            ops.append(('val', rng.randrange(ninst), rng.choice(pks)))
+    for i in range(ninst):          # and at the end everybody is asked about everything, all buffers wiped
+        if i == 0:
+            ops += [('scribble', b, 'zero') for b in ('A0', 'A1', 'P0', 'P1') if b in holds]
+        ops += [('val', i, p) for p in pks[:3]]
+    return ops
+
+
+def gen_buffers(ctx, env):
+    """every wire handed to the library (trust anchor, packet, delivered certificate) as bytes / bytearray /
+    memoryview (of bytes, of a bytearray, a window of a larger store), and the caller REWRITES its buffers later:
+    after the construction, between two validations, to build a second validator from the same buffer, to validate
+    the next packet.  The model and the oracle are given the history of the wires that were in the buffers when they
+    were handed over (value_ops): by the property nothing else may matter."""
+    rng = ctx.rng
+    for wi in range(ctx.n(5, 40)):
+        w, a1, a2, pk, depth, kts = buffer_world(env, rng)
+        same_len = len(w.pkts[a1]) == len(w.pkts[a2])
+        hs = [(shape, how, ops) for shape, how, ops in buffer_histories(rng, a1, a2, pk, ctx.thorough)]
+        hs += [('random-walk', 'mixed', random_buffer_history(rng, a1, a2, pk, rng.randrange(8, 16)))
+               for _ in range(ctx.n(8, 30))]
+        for hi, (shape, how, ops) in enumerate(hs):
+            forms = {'anchor': FORMS[(wi + hi) % len(FORMS)] if (wi + hi) % 4 == 3 else
+                     FORMS_MUTABLE[(wi + hi) % len(FORMS_MUTABLE)],
+                     'packet': rng.choice(FORMS), 'cert': rng.choice(FORMS)}
+            tag = f'buffers:{shape}:{how}:d{depth}:{forms["anchor"]}/{forms["packet"]}/{forms["cert"]}:' + \
+                  ''.join(k[0] for k in kts[:depth + 1])
+            impl = check_history(ctx, env, w, ops, tag, forms=forms)
+            ctx.case((tag, wi, hi), nontrivial=True,
+                     stratum=f'buffers:{shape}:{how}:anchor-in-{forms["anchor"]}',
+                     sample={'tag': tag, 'obs': [o[:3] for o in impl]})
+            ctx.stat('buffers:anchors-of-one-length:' + str(same_len))
+
+
 def run(ctx):
     env = Env(ctx)
+    gen_buffers(ctx, env)
+    import os
+    if os.environ.get('C14_ONLY'):
+        return
     gen_concurrent(ctx, env)
     gen_same_key(ctx, env)
     gen_anchors(ctx, env)
@@ -1638,6 +1958,6 @@ def replay(ctx, data):
         print('replayed', case['tag'], [e[0] for e in events], [(i, pid, st[:2]) for i, pid, st, _ in impl['threads']])
         return
     ops = [tuple(tuple(x) if isinstance(x, list) else x for x in o) for o in case['ops']]
-    impl = check_history(ctx, env, w, ops, case['tag'])
+    impl = check_history(ctx, env, w, ops, case['tag'], forms=case.get('forms'))
     ctx.case(('replay', case['tag']), nontrivial=True, sample={'tag': case['tag'], 'obs': [o[:3] for o in impl]})
     print('replayed', case['tag'], [o[:3] for o in impl])
